@@ -1,5 +1,348 @@
-//! C29 harness (stub: not implemented yet).
+//! C29 — node-signed announcement timestamps strictly increase.
+//!
+//! Drives the real `Service` (through the shared engine of `../c10/src/engine.rs`) with interleavings of
+//! clock moves (forward, equal, backward: `elapse`, `Service::tick`, raw `clock_mut` writes) and every
+//! action that makes the node create an announcement (`initialize`, `AddInventory`, `unseed`,
+//! `AnnounceRefs`, a successful fetch), with peers connected and subscribed so that what is created
+//! becomes visible in the outbox and in the gossip store.
+//!
+//! Output (compared with the Lean model `Model/Gossip.lean`): per op, the announcement writes, session
+//! disconnects and gossip-store rows, timestamps included — so `Service::timestamp` is compared value
+//! by value with `Timestamp.next`.
+//!
+//! Oracle (the property, on what the real code did; reading fixed in DESIGN: re-sending the same cached
+//! announcement is the same announcement):
+//! * `own-timestamp-repeated`: two different announcements signed by the node carry the same timestamp;
+//! * `own-timestamp-not-increasing`: an announcement first seen after op `j` carries a timestamp that is
+//!   not greater than that of an announcement of the node seen before. Refs announcements are stored
+//!   when created, so "first seen" is "created"; a cached inventory can stay invisible until the next
+//!   connection, so for inventories the rule is applied with one op of slack and only while every op that
+//!   can create an inventory has been followed at once by a connection (the generator does that).
+
+#[path = "../../c10/src/engine.rs"]
+mod engine;
+
+use engine::*;
+use std::collections::BTreeMap;
+use verif_common::*;
+
+fn creates_inventory(op: &Op) -> bool {
+    matches!(op, Op::Restart | Op::AddInventory(_) | Op::Unseed(_) | Op::Fetched(..))
+}
+
+/// Identity of an announcement of the local node for the oracle: kind, repo, timestamp.
+type Own = (char, u64, u64);
+
+fn oracle(recs: &[StepRec]) -> Vec<(String, String)> {
+    let mut viol = vec![];
+    // every own announcement seen so far: content (once a write showed it) and op of first observation
+    let mut seen: BTreeMap<Own, (Option<String>, usize)> = BTreeMap::new();
+    let mut probed = true; // every inventory-creating op so far was followed at once by a connection
+    for (j, r) in recs.iter().enumerate() {
+        let mut new: Vec<Own> = vec![];
+        for w in &r.writes {
+            if w.ann.node == 0 {
+                let k: Own = (w.ann.kind, w.ann.repo, w.ann.ts);
+                match seen.get_mut(&k) {
+                    Some((Some(c), at)) if *c != w.content => viol.push((
+                        "own-timestamp-repeated".to_string(),
+                        format!("op {j}: a different announcement {}.{}.{} than the one seen at op {at}", k.0, k.1, k.2),
+                    )),
+                    Some((c @ None, _)) => *c = Some(w.content.clone()),
+                    Some(_) => {}
+                    None => {
+                        seen.insert(k.clone(), (Some(w.content.clone()), j));
+                        new.push(k);
+                    }
+                }
+            }
+        }
+        for row in &r.rows {
+            if row.node == 0 {
+                let k: Own = (row.kind, row.repo, row.ts);
+                if !seen.contains_key(&k) {
+                    seen.insert(k.clone(), (None, j));
+                    new.push(k);
+                }
+            }
+        }
+        for k in &new {
+            let desc = format!("{}.{}.{}", k.0, k.1, k.2);
+            // ordering: how many ops of slack between creation and first observation
+            let slack = if k.0 == 'i' {
+                if probed { Some(1) } else { None }
+            } else if k.0 == 'n' {
+                None // the node announcement is created before the service exists
+            } else {
+                Some(0)
+            };
+            for (o, (_, at)) in seen.iter() {
+                if o == k {
+                    continue;
+                }
+                let d = format!("{}.{}.{}", o.0, o.1, o.2);
+                if o.2 == k.2 {
+                    if *at < j || o < k {
+                        viol.push((
+                            "own-timestamp-repeated".to_string(),
+                            format!("announcement {desc} (op {j}) carries the timestamp of the different announcement {d} (op {at})"),
+                        ));
+                    }
+                } else if let Some(sl) = slack {
+                    // seen strictly before op `j - sl`, with a larger timestamp
+                    if *at + sl < j && o.2 > k.2 {
+                        viol.push((
+                            "own-timestamp-not-increasing".to_string(),
+                            format!("announcement {desc} first seen at op {j} is not newer than {d} seen at op {at}"),
+                        ));
+                    }
+                }
+            }
+        }
+        // maintain `probed`
+        if j > 0 && creates_inventory(&recs[j - 1].op) && !matches!(r.op, Op::Connect(..)) {
+            probed = false;
+        }
+    }
+    viol.sort();
+    viol.dedup();
+    viol
+}
+
+fn run_case(input: &str) -> Outcome {
+    let Some((_t0, recs)) = run(input) else { return Outcome::new("bad-case").trivial() };
+    let mut o = Outcome::new(show(&recs));
+    o.violations = oracle(&recs);
+    let own_created: usize = {
+        let mut s = std::collections::BTreeSet::new();
+        for r in &recs {
+            for w in &r.writes {
+                if w.ann.node == 0 {
+                    s.insert((w.ann.kind, w.ann.repo, w.ann.ts));
+                }
+            }
+            for w in &r.rows {
+                if w.node == 0 {
+                    s.insert((w.kind, w.repo, w.ts));
+                }
+            }
+        }
+        s.len()
+    };
+    let mut tags = vec![];
+    let mut backward = false;
+    let mut stalled = false;
+    // highest own timestamp seen so far (a lower estimate of `last_timestamp`) vs the clock at creation time
+    let mut max_own = 0u64;
+    for r in &recs {
+        let new_max = r.writes.iter().filter(|w| w.ann.node == 0).map(|w| w.ann.ts)
+            .chain(r.rows.iter().filter(|w| w.node == 0).map(|w| w.ts)).max().unwrap_or(0);
+        if new_max > max_own {
+            if max_own > 0 && !matches!(r.op, Op::Connect(..) | Op::Subscribe(..)) {
+                tags.push(if r.clock_before == max_own {
+                    "created-with-clock-eq-last"
+                } else if r.clock_before < max_own {
+                    "created-with-clock-below-last"
+                } else if r.clock_before == max_own + 1 {
+                    "created-with-clock-eq-last-plus-1"
+                } else {
+                    "created-with-clock-above-last"
+                });
+            }
+            max_own = new_max;
+        }
+        if r.clock_after < r.clock_before {
+            backward = true;
+        }
+        match &r.op {
+            Op::Tick(t) if *t < r.clock_before => tags.push("tick-backward-ignored"),
+            Op::Tick(t) if *t == r.clock_before => tags.push("tick-equal"),
+            Op::SetClock(t) if *t < r.clock_before => tags.push("clock-set-backward"),
+            Op::SetClock(t) if *t == r.clock_before => tags.push("clock-set-equal"),
+            Op::Elapse(0) => {
+                stalled = true;
+                tags.push("elapse-zero")
+            }
+            Op::Restart => tags.push("restart"),
+            Op::AnnounceRefs(_) => tags.push("announce-refs"),
+            Op::AddInventory(_) => tags.push("add-inventory"),
+            Op::Unseed(_) => tags.push("unseed"),
+            Op::Fetched(..) => tags.push("fetched"),
+            _ => {}
+        }
+        if r.panicked.is_some() {
+            tags.push("panic");
+        }
+    }
+    let _ = stalled;
+    if backward {
+        tags.push("clock-went-backward");
+    }
+    tags.push(match own_created {
+        0..=2 => "own-announcements-le2",
+        3..=5 => "own-announcements-3to5",
+        _ => "own-announcements-ge6",
+    });
+    // clock below the last timestamp handed out while an announcement was created: the `+ 1` branch
+    tags.sort();
+    tags.dedup();
+    o.tags = tags.into_iter().map(String::from).collect();
+    o.nontrivial = own_created >= 4;
+    o
+}
+
+fn gen_case(rng: &mut Rng, max_ops: u64) -> String {
+    let t0: u64 = 1_700_000_000_000 + rng.below(1_000_000);
+    let mut toks: Vec<String> = vec![t0.to_string(), (rng.bool() as u8).to_string()];
+    let mut clock = t0;
+    let mut hi = 0u64; // highest clock at which a message was received
+    let mut made = 2u64; // upper estimate of timestamps handed out so far
+    let mut oid = 1u64;
+    let n_repos = rng.range(1, 3);
+    let mut repos: Vec<RepoSpec> = vec![];
+    for rid in 0..n_repos {
+        let r = RepoSpec {
+            rid,
+            present: true,
+            private: rng.chance(1, 4),
+            delegates: vec![0],
+            allow: if rng.bool() { vec![1] } else { vec![] },
+            own: if rng.chance(4, 5) { Some((oid, if rng.bool() { 1000 } else { t0 + 10_000_000 })) } else { None },
+        };
+        oid += 1;
+        toks.push(repo_tok(&r));
+        repos.push(r);
+        if rng.chance(5, 6) {
+            toks.push(format!("z,{rid}"));
+        }
+    }
+    let mut connected: Vec<u64> = vec![];
+    // a subscribed observer
+    toks.push("c,1,i".into());
+    toks.push(format!("s,1,*,0,{}", I64MAX));
+    connected.push(1);
+    hi = hi.max(clock);
+    let n = rng.range(3, max_ops);
+    let mut probe = 5u64;
+    for _ in 0..n {
+        let extra = rng.chance(1, 8) as u64;
+        let rid = rng.below(n_repos + extra);
+        let c = rng.below(100);
+        let mut probe_after = false;
+        match c {
+            // clock moves: near the last timestamp handed out (t0+2+made) to hit the `>` boundary
+            0..=9 => {
+                let dt = *rng.pick(&[0, 0, 1, 2, 3, 5, 6000, 5999, 1_800_000, 3_600_000]);
+                clock += dt;
+                toks.push(format!("e,{dt}"));
+            }
+            10..=19 => {
+                let t = match rng.below(4) {
+                    0 => clock.saturating_sub(rng.range(1, 5000)),
+                    1 => clock,
+                    2 => t0 + rng.below(made + 4),
+                    _ => clock + rng.range(1, 10),
+                };
+                let t = t.max(GOSSIP_MAX_AGE);
+                if t >= clock {
+                    clock = t;
+                }
+                toks.push(format!("k,{t}"));
+            }
+            20..=34 => {
+                let t = match rng.below(5) {
+                    0 => clock.saturating_sub(rng.range(1, 100_000)),
+                    1 => clock,
+                    2 | 3 => t0 + rng.below(made + 4), // around last_timestamp: below, equal, just above
+                    _ => clock + rng.range(1, 20),
+                };
+                let t = t.max(GOSSIP_MAX_AGE);
+                clock = t;
+                toks.push(format!("j,{t}"));
+            }
+            35..=49 => {
+                toks.push(format!("r,{rid}"));
+                made += 1;
+            }
+            50..=59 => {
+                toks.push(format!("i,{rid}"));
+                made += 1;
+                probe_after = true;
+            }
+            60..=64 => {
+                toks.push(format!("u,{rid}"));
+                made += 1;
+                probe_after = true;
+            }
+            65..=69 => toks.push(format!("z,{rid}")),
+            70..=77 => {
+                toks.push("R".into());
+                made += n_repos + 1;
+                probe_after = true;
+            }
+            78..=83 => {
+                if let Some(r) = repos.iter_mut().find(|r| r.rid == rid) {
+                    r.own = Some((oid, if rng.bool() { 1000 } else { clock + 1_000_000 }));
+                    oid += 1;
+                    if rng.chance(1, 5) {
+                        r.private = !r.private;
+                    }
+                    toks.push(repo_tok(r));
+                }
+            }
+            84..=89 => {
+                if rid < n_repos && !connected.is_empty() {
+                    let p = *rng.pick(&connected);
+                    toks.push(format!("f,{rid},{p},{},{}", rng.bool() as u8, rng.chance(3, 4) as u8));
+                    made += 2;
+                    probe_after = true;
+                }
+            }
+            90..=93 => toks.push("I".into()),
+            94..=96 => {
+                let p = rng.range(2, 4);
+                if connected.contains(&p) {
+                    toks.push(format!("d,{p}"));
+                    connected.retain(|x| *x != p);
+                } else {
+                    toks.push(format!("c,{p},{}", if rng.bool() { "i" } else { "o" }));
+                    connected.push(p);
+                }
+            }
+            _ => {
+                if clock >= hi && !connected.is_empty() {
+                    let p = *rng.pick(&connected);
+                    hi = clock;
+                    toks.push(format!("s,{p},*,0,{}", I64MAX));
+                }
+            }
+        }
+        if probe_after {
+            // make the cached inventory visible at once
+            toks.push(format!("c,{probe},i"));
+            toks.push(format!("d,{probe}"));
+            probe = if probe == 5 { 6 } else { 5 };
+        }
+    }
+    toks.join(" ")
+}
+
 fn main() {
-    eprintln!("C29: harness not implemented");
-    std::process::exit(3);
+    let mut ctx = Ctx::from_args("C29");
+    if !ctx.run_fixed(run_case) {
+        let mut rng = ctx.rng();
+        let n = ctx.size(400, 12_000);
+        for _ in 0..n {
+            let input = gen_case(&mut rng, 16);
+            let o = run_case(&input);
+            ctx.record(&input, o);
+        }
+    }
+    ctx.finish(
+        "random interleavings of clock moves (elapse incl. 0, Service::tick backward/equal/forward, raw clock writes backward/equal/\
+         around last_timestamp) with AnnounceRefs / AddInventory / unseed / restart / successful fetch / repository updates on 1-3 \
+         repositories, one subscribed observer and probe connections after every inventory-creating op; non-trivial = the real \
+         node produced at least 4 distinct announcements of its own; distinct by input text",
+        false,
+    );
 }
